@@ -7,6 +7,7 @@ import (
 
 	"verif/internal/c08"
 	"verif/internal/fw"
+	"verif/internal/interf"
 	"verif/internal/psched"
 )
 
@@ -17,6 +18,10 @@ func main() {
 	}
 	if len(os.Args) > 1 && (os.Args[1] == "pairsched" || os.Args[1] == "pairsched-replay") {
 		psched.Main(os.Args[1:])
+		return
+	}
+	if len(os.Args) > 1 && (os.Args[1] == "interf" || os.Args[1] == "interf-replay") {
+		interf.Main(os.Args[1:])
 		return
 	}
 	fw.Main()
